@@ -48,6 +48,26 @@ const SNIPPETS: &[Snip] = &[
             ("zc", "(int, Zpair)", false, "(1, Zpair { l: 1.5, r: true })"),
         ],
     ),
+    // module-qualified library types on variables that carry the name of that module (legal: in `dict.new()` the module
+    // wins, a bare `dict` is the variable)
+    (
+        "",
+        &[
+            ("dict", "dict.Dict(str, int)", true, "dict.new()"),
+            ("set", "set.Set(int)", false, "set.new()"),
+            ("zq", "(dict.Dict(str, int), int)", false, "(dict, 1)"),
+            ("zs", "[set.Set(int)]", true, "[set]"),
+        ],
+    ),
+    (
+        "",
+        &[
+            ("maybe", "maybe.Maybe(int)", true, "Maybe.Just 1"),
+            ("list", "[maybe.Maybe(int)]", true, "[maybe]"),
+            ("zf", "fn -> maybe.Maybe(int)", false, "fn -> do maybe end"),
+            ("zm", "maybe.Maybe(int)", false, "zf()"),
+        ],
+    ),
 ];
 
 /// the snippet with the annotation of definition j written when `bit(j)` says so
@@ -110,7 +130,7 @@ impl Check for C08 {
         let mut pall = render(&case.prog, &all);
         pall.text.push_str(&snippet_text(case.snippet, &|_| true));
         if case.snippet > 0 {
-            labels.add("open-or-generic-type-snippet");
+            labels.add(if case.snippet > 5 { "module-qualified-type-snippet" } else { "open-or-generic-type-snippet" });
         }
         let base = compile(&Project::single(pall.text.clone()));
         let lua_all = match &base {
